@@ -33,6 +33,12 @@ def make(rng, kind, cx=0, cy=0, drv=None):
     """like make_raw, but (when a model driver is given) re-draws until the Lean model accepts the shape as well formed"""
     for _ in range(50):
         s, d = make_raw(rng, kind, cx, cy)
+        # a composite whose own curves touch each other (a vertex of a hole exactly on the outer boundary, …) is a well-formed shape for the model but
+        # a NON-transversal configuration for the operators (finding K2): such operands are exercised by the deterministic corpus only
+        if d[0] in ("C", "D"):
+            curves = d[1] if d[0] == "C" else [vs for c in d[1] for vs in c]
+            if gen.contacts(curves):
+                continue
         if drv is None or d[0] in ("E", "W") or drv.ask("wf " + enc_desc(d)) == "":
             return s, d
     raise RuntimeError("could not generate a well-formed " + kind)
